@@ -9,7 +9,7 @@ use std::{
   panic::{catch_unwind, AssertUnwindSafe},
 };
 
-use rspack_sources::{MapOptions, Mapping, Rope, Source, SourceMap};
+use rspack_sources::{MapOptions, Mapping, OriginalLocation, Rope, Source, SourceMap};
 use serde_json::{json, Value};
 
 use crate::{
@@ -45,6 +45,44 @@ pub fn map_json(m: &SourceMap) -> Value {
     "file": m.file().map(|r| vec![bytes_json(r.as_bytes())]).unwrap_or_default(),
     "dbg": m.get_debug_id().map(|r| vec![bytes_json(r.as_bytes())]).unwrap_or_default(),
   })
+}
+
+/// [[gl, gc, si, ol, oc, ni], ...]; si < 0 = no original, ni < 0 = no name
+pub fn mappings_of(v: &Value) -> Vec<Mapping> {
+  v.as_array()
+    .map(|a| {
+      a.iter()
+        .map(|s| {
+          let g = |i: usize| s[i].as_i64().unwrap_or(0);
+          Mapping {
+            generated_line: g(0) as u32,
+            generated_column: g(1) as u32,
+            original: (g(2) >= 0).then(|| OriginalLocation {
+              source_index: g(2) as u32,
+              original_line: g(3) as u32,
+              original_column: g(4) as u32,
+              name_index: (g(5) >= 0).then(|| g(5) as u32),
+            }),
+          }
+        })
+        .collect()
+    })
+    .unwrap_or_default()
+}
+
+pub fn segs_json(ms: &[Mapping], big: &mut bool) -> Value {
+  Value::Array(
+    ms.iter()
+      .map(|m| match &m.original {
+        Some(o) => json!([
+          num(m.generated_line as u64, big), num(m.generated_column as u64, big),
+          num(o.source_index as u64, big), num(o.original_line as u64, big),
+          num(o.original_column as u64, big),
+          o.name_index.map(|n| num(n as u64, big)).unwrap_or(json!(-1))]),
+        None => json!([num(m.generated_line as u64, big), num(m.generated_column as u64, big), -1, 0, 0, -1]),
+      })
+      .collect(),
+  )
 }
 
 enum Ev<'a> {
@@ -201,6 +239,66 @@ impl Machine {
         json!({})
       }
       "law" => json!({}),
+      "codec" => {
+        // encode -> decode -> encode again, all with the crate's own codec
+        let ms = mappings_of(&step["segs"]);
+        let enc = rspack_sources::encode_mappings(ms.into_iter());
+        let map = SourceMap::new(enc.clone(), Vec::<String>::new(), Vec::<String>::new(), Vec::<String>::new());
+        let dec: Vec<Mapping> = rspack_sources::decode_mappings(&map).collect();
+        let re = rspack_sources::encode_mappings(dec.clone().into_iter());
+        let mut big = false;
+        json!({"m": bytes_json(enc.as_bytes()), "dec": segs_json(&dec, &mut big),
+               "re": bytes_json(re.as_bytes()), "big": big})
+      }
+      "decode" => {
+        let text = crate::build::string_of(&step["m"]);
+        let map = SourceMap::new(text, Vec::<String>::new(), Vec::<String>::new(), Vec::<String>::new());
+        let dec: Vec<Mapping> = map.decoded_mappings().collect();
+        let mut big = false;
+        json!({"dec": segs_json(&dec, &mut big), "big": big})
+      }
+      "lines_encode" => {
+        // the line-only encoder, reached through map(columns = false) of a
+        // one-child ConcatSource over a scripted child
+        let ms = mappings_of(&step["segs"]);
+        let mut events = vec![];
+        for m in &ms {
+          events.push(crate::custom::ScriptEv::Chunk(
+            String::new(),
+            m.generated_line,
+            m.generated_column,
+            m.original.as_ref().map(|o| (o.source_index, o.original_line, o.original_column, o.name_index)),
+          ));
+        }
+        let last = ms.last().map(|m| m.generated_line).unwrap_or(1);
+        let child = crate::custom::ScriptSource { text: String::new(), events, end: (last, 1) };
+        let concat = rspack_sources::ConcatSource::new([child]);
+        let m = concat.map(&MapOptions::new(false));
+        json!({"m": m.as_ref().map(|m| vec![bytes_json(m.mappings().as_bytes())]).unwrap_or_default()})
+      }
+      "vlq_batch" => {
+        // every original-column delta d in lo..=hi as the 4th field of a
+        // second segment; base keeps the running value non-negative
+        let lo = step["lo"].as_i64().unwrap();
+        let hi = step["hi"].as_i64().unwrap();
+        let base = step["base"].as_i64().unwrap();
+        let first = Mapping { generated_line: 1, generated_column: 0, original: Some(OriginalLocation {
+          source_index: 0, original_line: 1, original_column: base as u32, name_index: None }) };
+        let prefix = rspack_sources::encode_mappings(vec![first.clone()].into_iter()).len() + 4;
+        let mut digits = vec![];
+        let mut decoded = vec![];
+        for d in lo..=hi {
+          let second = Mapping { generated_line: 1, generated_column: 1, original: Some(OriginalLocation {
+            source_index: 0, original_line: 1, original_column: (base + d) as u32, name_index: None }) };
+          let enc = rspack_sources::encode_mappings(vec![first.clone(), second].into_iter());
+          digits.push(bytes_json(&enc.as_bytes()[prefix..]));
+          let map = SourceMap::new(enc, Vec::<String>::new(), Vec::<String>::new(), Vec::<String>::new());
+          let dec: Vec<Mapping> = map.decoded_mappings().collect();
+          let oc = dec.get(1).and_then(|m| m.original.as_ref()).map(|o| o.original_column as i64).unwrap_or(-1);
+          decoded.push(json!(oc));
+        }
+        json!({"digits": digits, "oc": decoded})
+      }
       "source" => {
         json!({"t": bytes_json(self.reg(step, "r").as_source().source().as_bytes())})
       }
